@@ -693,12 +693,26 @@ func c16WalkTransform(c *fw.Ctx, rng *fw.RNG) {
 	before := obs.ReadOut(rootNode, obs.Options{Light: true}).Val
 	// a callback that fails at its k-th call: the walk must end with that error, not with a tree built around nothing
 	if len(replacedPaths) > 0 && rng.Chance(1, 8) {
-		failAt := rng.Intn(len(replacedPaths))
+		// (how many calls this walk makes is counted by a dry run with the same replacing callback: two
+		// interests naming one list element are two visits for the reference and one call here)
+		ncalls := 0
+		if c.Guard("C16:WalkTransforming", func() {
+			traversal.WalkTransforming(rootNode, sel, func(_ traversal.Progress, n datamodel.Node) (datamodel.Node, error) {
+				ncalls++
+				return basicnode.NewString("«replaced»"), nil
+			})
+		}) {
+			ncalls = 0
+		}
+		failAt := 0
+		if ncalls > 0 {
+			failAt = rng.Intn(ncalls)
+		}
 		errCB := errors.New("callback says no")
 		calls := 0
 		var o2 datamodel.Node
 		var e2 error
-		if !c.Guard("C16:WalkTransforming:callback-error", func() {
+		if ncalls > 0 && !c.Guard("C16:WalkTransforming:callback-error", func() {
 			o2, e2 = traversal.WalkTransforming(rootNode, sel, func(_ traversal.Progress, n datamodel.Node) (datamodel.Node, error) {
 				calls++
 				if calls-1 == failAt {
